@@ -125,6 +125,15 @@ class ChainFam(Family):
                     top = max(forest, key=lambda e: (e[2], e[0]))
                     lines += [f"trycommit {top[0]} {top[0]}", "dump"]
                     yield (f"fetch{n}-f{fi}-m{mask}-k{ki}", lines)
+                    if "arrive={x}" in kind:
+                        # the same with a second Get of the same hash overlapping the fetch: the block that arrives
+                        # meanwhile cancels nobody's fetch, and must be found all the same (C13-r6m1)
+                        ov = []
+                        for l in lines:
+                            ov.append(l)
+                            if l.startswith("fetch-answer "):
+                                ov.append(f"fetch-overlap {l.split()[1]} on")
+                        yield (f"fetch{n}-f{fi}-m{mask}-k{ki}-overlap", ov)
 
     def _commit_script(self, rng, nblocks):
         """a main chain that is committed step by step while forks and equivocating blocks arrive"""
@@ -229,6 +238,8 @@ class ChainFam(Family):
                 elif r < 0.84:
                     kind = rng.choice(["{x}", "lying", "lying {x}", "none", "{y}", "{x} arrive={x}", "none arrive={y}", "{y} {x} lying"])
                     lines.append(f"fetch-answer {x} " + kind.format(x=x, y=y))
+                    if rng.random() < 0.3:
+                        lines.append(f"fetch-overlap {x} " + rng.choice(("on", "on", "off")))
                 elif r < 0.90:
                     lines.append("dump")
                 elif grow and r < 0.96:
